@@ -536,19 +536,24 @@ def lzdecoder_stage(ctx, tier, target_cfgs):
     quick = tier == "quick"
     base = {"B": "4", "ReadSizes": "{0,1,2,3,5}", "Lens": "{2,3,4}", "ChunkSizes": "{1,2,3,5}", "SizeKnown": "FALSE",
             "AllowBad": "TRUE", "KeepHist": "FALSE"}
-    for name, kind, extra in (("lzma2", "lzma2", {"MaxStream": "5" if quick else "7"}),
-                              ("lzma-known", "lzma", {"SizeKnown": "TRUE", "MaxStream": "6" if quick else "8"}),
-                              ("lzma-marker", "lzma", {"MaxStream": "5" if quick else "7"})):
+    mcs = [("lzma2", "lzma2", {"MaxStream": "5" if quick else "7"}),
+           ("lzma-marker", "lzma", {"MaxStream": "5" if quick else "7"})]
+    if not quick:
+        mcs.append(("lzma-known", "lzma", {"SizeKnown": "TRUE", "MaxStream": "8"}))
+    for name, kind, extra in mcs:
         c = dict(base, Kind=f'"{kind}"')
         c.update(extra)
         d, mod, cfg = core.write_model("LzDecoder", c, invariants=LZD_INV, properties=LZD_PROPS)
         r = ctx.tlc(mod, cfg, name=f"LzDecoder {name}", cwd=d, workers=6, timeout=1500)
         ctx.require_coverage(r, ["Lit", "Match", "Flush", "RepeatPending", "BadDistAny"], f"LzDecoder {name}")
     sims = [("lz2", "lzma2", {"B": "16", "MaxStream": "44", "AllowBad": "TRUE"}),
-            ("lz2v", "lzma2", {"B": "16", "MaxStream": "44", "AllowBad": "FALSE"}),
-            ("lz1k", "lzma", {"B": "64", "MaxStream": "40", "SizeKnown": "TRUE", "AllowBad": "TRUE"}),
             ("lz1m", "lzma", {"B": "64", "MaxStream": "40", "SizeKnown": "FALSE", "AllowBad": "FALSE"})]
-    nb = 40 if quick else 600
+    if not quick:
+        sims += [("lz2v", "lzma2", {"B": "16", "MaxStream": "44", "AllowBad": "FALSE"}),
+                 ("lz1k", "lzma", {"B": "64", "MaxStream": "40", "SizeKnown": "TRUE", "AllowBad": "TRUE"}),
+                 ("lz2big", "lzma2", {"B": "64", "MaxStream": "150", "AllowBad": "FALSE"})]
+    nb = 60 if quick else 600
+    all_runs = []
     tot = {"behaviours": 0, "calls": 0, "zero_reads": 0, "split_matches": 0, "wraps": 0, "bad_dist": 0, "mismatch": 0}
     for name, kind, extra in sims:
         c = {"Kind": f'"{kind}"', "ReadSizes": "{0,1,2,3,5,7,20,50}", "Lens": "{2,3,5,9,17,18}", "ChunkSizes": "{1,2,3,5,8,13,21}",
@@ -563,12 +568,13 @@ def lzdecoder_stage(ctx, tier, target_cfgs):
             if cfg_name == "default":
                 for k in tot:
                     tot[k] += st.get(k, 0)
-                lv = symlib.validate_lzdecoder(ctx, runs, name=name)
-                if lv["accepted"]:
-                    ctx.add("traces_validated", lv["runs"])
-                else:
-                    ctx.note_drift(f"Trace_LzDecoder rejects the decoder events of forged behaviours {name} after event {lv['reached']}/{lv['total']}: "
-                                   f"{lv.get('next_event')} state {lv.get('state')}")
+                all_runs += runs
+    lv = symlib.validate_lzdecoder(ctx, all_runs, name="forged behaviours")
+    if lv["accepted"]:
+        ctx.add("traces_validated", lv["runs"])
+    else:
+        ctx.note_drift(f"Trace_LzDecoder rejects the decoder events of forged behaviours after event {lv['reached']}/{lv['total']}: "
+                       f"{lv.get('next_event')} state {lv.get('state')}")
     if min(tot["zero_reads"], tot["split_matches"], tot["wraps"], tot["bad_dist"]) == 0:
         raise ToolError(f"vacuous LzDecoder replay: a scenario class never occurred: {tot}")
     ctx.cov["lzdecoder_replay"] = tot
